@@ -38,7 +38,7 @@ import sys
 
 sys.path.insert(0, os.path.dirname(os.path.abspath(__file__)))
 from rs2v.driver import translate, TranslateError   # noqa: E402
-from rs2v.emit import EmitError                      # noqa: E402
+from rs2v.emit import EmitError, Emitter             # noqa: E402
 from rs2v.rparser import parse_file, find_items, ParseError, type_name, N   # noqa: E402
 from rs2v.lexer import LexError   # noqa: E402
 from rs2v.imports import resolve_uses, UseError   # noqa: E402
@@ -290,6 +290,7 @@ def anstyle_vocab(bits):
         },
         "paths": {"anstyle::Effects::" + n: ("(bit %d)" % b, EFF) for n, b in bits.items()},
         "consts": {},
+        "method_paths": {},
         "fns": {},
         "methods": {
             ("AStyle", "get_fg_color"): m_getter("(ad_s_get_fg %s)", ("opt", COLOR)),
@@ -329,6 +330,8 @@ def lib_vocab(lib, bits):
         v["methods"][("TStyle", d["with_bg"])] = shape("ad_t_with_bg", "in", [("in", TCOLOR)], TSTYLE)
         for a in d["attrs"]:
             v["methods"][("TStyle", a)] = m_attr(a)
+            # `<Style>::bold` as a function POINTER in a private table of the crate (emit.py fn_value)
+            v["method_paths"]["%s::%s" % (d["style"], a)] = ("TStyle", a)
     if lib == "crossterm":
         # Color::Rgb { r, g, b } and ContentStyle { .. } are struct literals; Attributes is a set of Attribute
         v["structs"]["Rgb"] = {"coq": "ad_tcolor", "check": False, "ctor": ("AdRgb", ["r", "g", "b"]),
@@ -432,10 +435,29 @@ def anstyle_color_src(gm):
 
 def check_file(gm, rel, src, items, vocab):
     """no `use` / `type` / `macro_rules` (they would change what a path means; the parser skips them), then check_paths"""
-    m = re.search(r"^\s*(?:pub(?:\([^)]*\))?\s+)?(use|type|extern|macro_rules)\b", gm.strip_comments(src), re.M)
+    text = fn_pointer_aliases(rel, gm.strip_comments(src), vocab)
+    m = re.search(r"^\s*(?:pub(?:\([^)]*\))?\s+)?(use|type|extern|macro_rules)\b", text, re.M)
     if m:
         raise TranslateError("%s: `%s` item: the vocabulary reads every path as written" % (rel, m.group(1)))
     check_paths(rel, items, vocab, set(h.path for h in vocab["fns"].values() if hasattr(h, "path")))
+
+
+def fn_pointer_aliases(rel, text, vocab):
+    """A PRIVATE module-level `type NAME = fn(T, ..) -> R;` over types of the vocabulary (written in full) is no change of
+    what a path means: NAME becomes a `type_alias` of the function-pointer type (emit.py: a "fnval") and the item is
+    blanked out of the text the `use` / `type` check looks at.  Any other `type` item stays a GEN-ERROR."""
+    def repl(m):
+        name, rhs = m.group(1), m.group(2)
+        try:
+            ty = parse_file("const X: %s = 0;" % rhs)[0].ty
+        except (ParseError, LexError, IndexError, AttributeError):
+            return m.group(0)
+        fv = Emitter(vocab, []).ty_of_ast(ty)
+        if fv[0] != "fnval" or name in vocab["type_alias"]:
+            return m.group(0)
+        vocab["type_alias"][name] = fv
+        return " " * len(m.group(0))
+    return re.sub(r"(?m)^type\s+(\w+)\s*=\s*(fn\s*\([^;{}]*);", repl, text)
 
 
 def check_paths(rel, items, vocab, callees):
@@ -478,9 +500,18 @@ def check_paths(rel, items, vocab, callees):
                     bad(p, "callee")
                 continue
             walk(vv, seen)
+    fn_known = known
     for it in items:
         if it.kind == "fn":
+            known = fn_known
             walk(it, set())
+        elif it.kind == "const" and not getattr(it, "static", False) and not getattr(it, "pub", False) \
+                and it.val is not None and it.val.kind == "array":
+            # a private table (emit.py source_table reads it where a function names it): its paths are checked like
+            # those of a function; only here may a vocabulary method be NAMED as a function pointer (`method_paths`)
+            known = fn_known | set(vocab.get("method_paths", ()))
+            walk(it, set())
+            known = fn_known
         elif it.kind not in ("use",):
             raise TranslateError("%s: item `%s` besides the conversion functions" % (rel, it.kind))
 
